@@ -52,7 +52,7 @@ PROP = {
         + [
             H("c05_two_samples_f4_a5_b9", _fa, _TWO, "f=4; A: n=5 (N=2), SN 7; B: n=9 (N=3), SN 8"),
             H("c05_two_samples_f4_a9_b5", _fa, _TWO, "f=4; A: n=9 (N=3), SN 8; B: n=5 (N=2), SN 7", tier="thorough", timeout=2400),
-            H("c05_two_samples_f5_a11_b6", _fa, _TWO, "f=5; A: n=11 (N=3), SN 3; B: n=6 (N=2), SN 4", tier="thorough", timeout=2400),
+            H("c05_two_samples_f5_a9_b6", _fa, _TWO, "f=5; A: n=9 (N=2), SN 3; B: n=6 (N=2), SN 4", tier="thorough", timeout=2400),
             H("c05_two_samples_f5_a6_b11", _fa, _TWO, "f=5; A: n=6 (N=2), SN 4; B: n=11 (N=3), SN 3", tier="thorough", timeout=2400),
             H("c05_once_via_proxy_f4_n5_sn1", _fa,
               "what 'once' rests on: two complete rounds of the same sample's fragments (second round = late duplicates, "
